@@ -3,6 +3,10 @@
  *      1 ascon_aead_set_counter: all 2^64 counters: eight zero bytes then the counter big-endian
  *      2 session of two packets on one incremental object (ALG): packet 0 == one-shot under N,
  *        packet 1 == one-shot under N+1, stored nonce == N+2 afterwards (transcript form)
+ *      3 mixed session of three packets on one incremental object: encrypt, decrypt of an ARBITRARY
+ *        (ciphertext, tag) pair - so both the accepted and the rejected case are in the query -,
+ *        encrypt.  Packet 1 == spec decryption under N+1 with result 0 iff the tags agree, packet 2 ==
+ *        one-shot under N+2 whatever the outcome of packet 1, stored nonce == N+3 (transcript form)
  */
 #include "vh.h"
 #include "spec.h"
@@ -72,6 +76,37 @@ void harness(void)
     CHECK(ok, "packet 1 equals the one-shot result under nonce N+1");
     ok = vh_eq_bytes(st.nonce, n2, 16);
     CHECK(ok, "stored nonce is N+2 after two packets");
+    ls_done();
+#elif KIND == 3
+    SYM_BYTES(key, KLEN);
+    SYM_BYTES(npub, 16);
+    SYM_BYTES(ad, ADLEN);
+    SYM_BYTES(m1, MLEN);
+    SYM_BYTES(cin, MLEN);
+    SYM_BYTES(tin, 16);
+    SYM_BYTES(m3, MLEN);
+    unsigned char c1[MLEN > 0 ? MLEN : 1], c3[MLEN > 0 ? MLEN : 1], m2[MLEN > 0 ? MLEN : 1], t1[16], t3[16], e[MLEN > 0 ? MLEN : 1], et[16], n1[16], n2[16], n3[16];
+    int r2, same;
+    ST st;
+    FN(init)(&st, npub, key);
+    FN(start)(&st, ad, ADLEN); FN(encrypt_block)(&st, m1, c1, MLEN); FN(encrypt_finalize)(&st, t1);
+    FN(start)(&st, ad, ADLEN); FN(decrypt_block)(&st, cin, m2, MLEN); r2 = FN(decrypt_finalize)(&st, tin);
+    FN(start)(&st, ad, ADLEN); FN(encrypt_block)(&st, m3, c3, MLEN); FN(encrypt_finalize)(&st, t3);
+    add128(n1, npub, 1); add128(n2, npub, 2); add128(n3, npub, 3);
+    spec_aead_encrypt(ALG, e, et, m1, MLEN, ad, ADLEN, npub, key);
+    ok = vh_eq_bytes(c1, e, MLEN) && vh_eq_bytes(t1, et, 16);
+    CHECK(ok, "packet 0 (encrypt) equals the one-shot result under nonce N");
+    spec_aead_decrypt(ALG, e, et, cin, MLEN, ad, ADLEN, n1, key);
+    same = vh_eq_bytes(tin, et, 16);
+    ok = vh_eq_bytes(m2, e, MLEN);
+    CHECK(ok, "packet 1 (decrypt_block) returns the spec plaintext under nonce N+1");
+    ok = (r2 == (same ? 0 : -1));
+    CHECK(ok, "packet 1 (decrypt_finalize) returns 0 iff the tag is the spec tag under N+1, else -1");
+    spec_aead_encrypt(ALG, e, et, m3, MLEN, ad, ADLEN, n2, key);
+    ok = vh_eq_bytes(c3, e, MLEN) && vh_eq_bytes(t3, et, 16);
+    CHECK(ok, "packet 2 (encrypt) equals the one-shot result under nonce N+2, whether packet 1 was accepted or rejected");
+    ok = vh_eq_bytes(st.nonce, n3, 16);
+    CHECK(ok, "stored nonce is N+3 after three packets");
     ls_done();
 #endif
     WITNESS();
